@@ -16,7 +16,18 @@ CHECKS = {
    design="8/C17"),
 }
 
+def load_fragments():
+    """tools/props/CXX.manifest.json: {"text","note","technique","design"} -- one per claimed property, so that
+    slices developed in parallel never edit a shared file."""
+    import glob
+    for f in sorted(glob.glob(os.path.join(V, "tools", "props", "C*.manifest.json"))):
+        pid = os.path.basename(f).split(".")[0]
+        CHECKS[pid] = json.load(open(f))
+
+NA_REASONS = {}
+
 def main():
+    load_fragments()
     checks = []
     for pid in ALL:
         if pid not in CHECKS:
@@ -33,7 +44,7 @@ def main():
             "level_note": c["note"],
             "technique": c["technique"],
         })
-    na = [{"property_id": pid, "reason": "no check registered yet: the Coq model/proof for this property is still being built in this round (DESIGN.md section 8 gives the planned theorem); nothing is claimed for it"}
+    na = [{"property_id": pid, "reason": NA_REASONS.get(pid) or "no check registered yet: the Coq model/proof for this property is still being built in this round (DESIGN.md section 8 gives the planned theorem); nothing is claimed for it"}
           for pid in ALL if pid not in CHECKS]
     m = {
         "version": 1,
@@ -51,6 +62,6 @@ def main():
     with open(os.path.join(V, "MANIFEST.json"), "w") as fh:
         json.dump(m, fh, indent=1)
 
-HOOK_COMMITS = []
+HOOK_COMMITS = []   # hook commits in /repo (none: all hooks are overlaid from /verif/harness/overlay at build time)
 if __name__ == "__main__":
     main()
